@@ -186,8 +186,19 @@ def judge(prop, recs, with_model=True):
 def gen_history(seed, prop, nsteps):
     """returns a closure producing steps from observed snapshots, deterministic in seed"""
     rng = random.Random(seed)
-    prof = PROFILES[prop]
+    prof = dict(PROFILES[prop])
+    # each history works with a small vocabulary of path components (so that siblings, name clashes and
+    # directories sharing a prefix are common) that always contains one prefix pair
+    comps = list(prof.get("components", gen.COMPONENTS))
+    prof["components"] = rng.sample(comps, min(len(comps), rng.choice([3, 4, 5, 6, 8]))) + list(rng.choice(gen.PREFIX_PAIRS))
+    pair = prof["components"][-2:]
     pre = gen.prelude(rng, prof)
+    if rng.random() < 0.6:
+        # two sibling DIRECTORIES one of whose names is a proper prefix of the other
+        from hist import Edit as _E
+        parent = b"" if rng.random() < 0.6 else rng.choice(prof["components"]) + b"/"
+        pre.append(_E("write", parent + pair[0] + b"/" + rng.choice(prof["components"]), gen.content(rng)))
+        pre.append(_E("write", parent + pair[1] + b"/" + rng.choice(prof["components"]), gen.content(rng)))
     if prof.get("ignore") and rng.random() < 0.8:
         from hist import Edit
         pre.append(Edit("write", b".goitignore", rng.choice(IGNORE_FILES)))
